@@ -85,9 +85,9 @@ def main(argv=None):
             print("replay file carries no concrete input (obligation %s)" % rp.get("obligation"))
             print(json.dumps(rp.get("solver", {}), indent=1)[:3000])
             return EXIT_OK
-        res = native_call(prop, rp["native"]["func"], rp["native"]["payload"])
+        res = native_call(rp["native"].get("module", prop), rp["native"]["func"], rp["native"]["payload"])
         print(json.dumps(res, indent=1))
-        return EXIT_VIOLATION if res.get("fails") else EXIT_OK
+        return EXIT_VIOLATION if (res.get("fails") or res.get("missing")) else EXIT_OK
 
     S = Session(prop)
     S.tier = tier
@@ -154,6 +154,26 @@ def main(argv=None):
 
     violations = []
     known_lines = []
+    # --- guard: every dependency name a function under contract evaluates resolves in the repo's runtime
+    mods = {}
+    for info in S.functions.values():
+        modname = info["file"][:-3].replace("/", ".")
+        mods.setdefault(modname, set()).update(info.get("external_names", []))
+    name_res = native_call("resolve", "resolve_names", {"modules": {k: sorted(v) for k, v in mods.items()}}, timeout=120)
+    if name_res.get("error"):
+        guard_errors.append(("external names", name_res.get("error") + name_res.get("stderr", "")[-300:]))
+    for miss in name_res.get("missing", []):
+        # attribute chains through objects (e.g. wcs.wcs.crval on an imported *instance*) cannot be told apart from
+        # module attributes here; only report names whose first attribute is missing on a module
+        nm = "%s.safe.external_name_resolves.%s" % (miss["module"].split(".")[-1], miss["name"])
+        if nm in known_names:
+            known_lines.append("KNOWN-FINDING: property=%s %s: %s" % (prop, nm, known_names[nm].get("what", "")))
+            continue
+        path = write_replay(prop, nm, {"property": prop, "obligation": nm,
+                                       "native": {"func": "resolve_names", "module": "resolve",
+                                                  "payload": {"modules": {miss["module"]: [miss["name"]]}}},
+                                       "observed": miss})
+        violations.append((nm, path, True))
     # --- failing obligations -> counterexample pipeline ---
     for name, lst in sorted(failing.items()):
         ob = lst[0]
@@ -198,9 +218,10 @@ def main(argv=None):
     per_backend = {}
     for o in obs:
         r = o.meta['result']
-        per_backend.setdefault(r['backend'], [0, 0.0])
-        per_backend[r['backend']][0] += 1
-        per_backend[r['backend']][1] += r['seconds']
+        bk = r['backend'] + ("+pyvc-ring" if o.meta.get('ring_proved_equalities') else "")
+        per_backend.setdefault(bk, [0, 0.0])
+        per_backend[bk][0] += 1
+        per_backend[bk][1] += r['seconds']
 
     samples = []
     seen = set()
@@ -234,6 +255,7 @@ def main(argv=None):
             "per_backend": {k: {"vcs": v[0], "seconds": round(v[1], 3)} for k, v in per_backend.items()},
             "solver_wall_s": round(solve_s, 3),
             "unmodelled_names": sorted(S.unmodelled),
+            "external_names_resolved": name_res.get("checked", 0),
             "native_checks": monitors,
             "guards": {"errors": guard_errors,
                        "covers": len([o for o in obs if o.expect == "sat"]),
